@@ -113,6 +113,27 @@ class Pools(object):
         return len(self.plain) >= 5
 
 
+def _patched(mn, attrib, enc, offset, target):
+    """architecture specific bit patches of the displacement field (all candidates are
+    verified by decoding, so a wrong patch is only a lost candidate)"""
+    name = mn.__name__
+    out = []
+    if name == "mn_x86" and len(enc) == 2 and (0x70 <= enc[0] <= 0x7F or enc[0] in (0xEB, 0xE0, 0xE1, 0xE2, 0xE3)):
+        rel = target - (offset + 2)
+        if -128 <= rel <= 127:
+            out.append(bytes([enc[0], rel & 0xFF]))
+    if name in ("mn_mips32", "mn_ppc") and len(enc) == 4:
+        big = (attrib == 'b')
+        word = int.from_bytes(enc, "big" if big else "little")
+        if name == "mn_mips32":
+            out.append(((word & 0xFC000000) | ((target >> 2) & 0x3FFFFFF)).to_bytes(4, "big" if big else "little"))
+            out.append(((word & 0xFFFF0000) | (((target - offset - 4) >> 2) & 0xFFFF)).to_bytes(4, "big" if big else "little"))
+        else:
+            out.append(((word & 0xFC000003) | ((target - offset) & 0x03FFFFFC)).to_bytes(4, "big"))
+            out.append(((word & 0xFFFF0003) | ((target - offset) & 0xFFFC)).to_bytes(4, "big"))
+    return out
+
+
 def retarget(mn, attrib, enc, offset, target):
     """Re-encode the direct branch @enc placed at @offset so that it goes to
     @target, keeping its length.  Returns bytes or None."""
@@ -120,26 +141,31 @@ def retarget(mn, attrib, enc, offset, target):
     from miasm.core.bin_stream import bin_stream_str
     from miasm.expression.expression import ExprLoc
     ldb = LocationDB()
+    cands = []
     try:
         ins = mn.dis(bin_stream_str(enc + b"\x00" * 16, base_address=offset), attrib, offset)
+        name0 = ins.name
         ins.dstflow2label(ldb)
         idx = [i for i, a in enumerate(ins.args) if a.is_loc()]
-        if len(idx) != 1:
-            return None
-        idx = idx[0]
-        ins.args[idx] = ExprLoc(ldb.get_or_create_offset_location(target), ins.args[idx].size)
-        ins.args = ins.resolve_args_with_symbols(ldb)
-        ins.fixDstOffset()
-        cands = mn.asm(ins, ldb)
+        if len(idx) == 1:
+            idx = idx[0]
+            ins.args[idx] = ExprLoc(ldb.get_or_create_offset_location(target), ins.args[idx].size)
+            ins.args = ins.resolve_args_with_symbols(ldb)
+            ins.fixDstOffset()
+            cands = list(mn.asm(ins, ldb))
     except Exception:
-        return None
+        pass
+    try:
+        cands += _patched(mn, attrib, enc, offset, target)
+    except Exception:
+        pass
     for cand in cands:
         if len(cand) != len(enc):
             continue
         # keep only encodings that really go to the target
         try:
             chk = mn.dis(bin_stream_str(cand + b"\x00" * 16, base_address=offset), attrib, offset)
-            if not (chk.breakflow() and chk.dstflow()):
+            if not (chk.breakflow() and chk.dstflow()) or chk.l != len(enc):
                 continue
             l2 = LocationDB()
             chk.dstflow2label(l2)
@@ -155,17 +181,17 @@ def gen_program(pools, rng, base):
     """Structured code: a sequence of slots, direct branches re-targeted to slot
     starts (forward/backward), to the middle of instructions, to themselves, to
     their fall-through, or outside.  Returns (bytes, slot offsets, stats)."""
-    nslots = rng.randint(4, 36)
+    nslots = rng.randint(6, 40)
     slots = []
     for _ in range(nslots):
         r = rng.random()
-        if r < 0.62 or not pools.branch:
+        if r < 0.68 or not pools.branch:
             kind, enc = "plain", rng.choice(pools.plain)
-        elif r < 0.86:
+        elif r < 0.88:
             kind, enc = "branch", rng.choice(pools.branch)
-        elif r < 0.93 and pools.call:
+        elif r < 0.94 and pools.call:
             kind, enc = "call", rng.choice(pools.call)
-        elif pools.stop:
+        elif pools.stop and r < 0.97:
             kind, enc = "stop", rng.choice(pools.stop)
         else:
             kind, enc = "plain", rng.choice(pools.plain)
@@ -181,9 +207,14 @@ def gen_program(pools, rng, base):
     for i, (kind, enc) in enumerate(slots):
         if kind in ("branch", "call"):
             r = rng.random()
-            if r < 0.42 and i > 0:
-                tgt, what = offs[rng.randrange(0, i)], "back"
-            elif r < 0.74 and i + 1 < nslots:
+            if r < 0.56 and i > 0:
+                j = rng.randrange(0, i)
+                for _ in range(4):      # prefer the inside of a straight-line run
+                    if j > 0 and slots[j - 1][0] == "plain":
+                        break
+                    j = rng.randrange(0, i)
+                tgt, what = offs[j], "back"
+            elif r < 0.78 and i + 1 < nslots:
                 tgt, what = offs[rng.randrange(i + 1, nslots)], "fwd"
             elif r < 0.84:
                 j = rng.randrange(nslots)
